@@ -29,7 +29,16 @@ def make_data(rs, algo, dt="float64", cls=None, order=None, rank_hint=None):
         J = [int(rs.randint(max(R, 2), 7)) for _ in range(I)]
         if rs.rand() < 0.3:
             J = [J[0]] * I
-        if "lowrank" in cls:
+        if cls == "sparseC-noisy":
+            # a PARAFAC2 model whose C factor has exact zeros, plus noise: extrapolated C iterates overshoot below zero
+            R = max(R, 2)
+            J = [max(j, R) for j in J]
+            A = rs.uniform(0.5, 2, (I, R))
+            B = rs.standard_normal((R, R)) + 2 * np.eye(R)
+            C = np.abs(rs.standard_normal((K, R))) * (rs.uniform(size=(K, R)) < 0.5)
+            P = [gen.orth(rs, j, R) for j in J]
+            slices = [(P[i] @ B * A[i]) @ C.T + 0.1 * rs.standard_normal((J[i], K)) for i in range(I)]
+        elif "lowrank" in cls:
             A = rs.uniform(0.5, 2, (I, R))
             B = rs.standard_normal((R, R)) + 2 * np.eye(R)
             C = np.abs(rs.standard_normal((K, R))) if "nonneg" in cls else rs.standard_normal((K, R))
